@@ -389,7 +389,7 @@ func TestC04(t *testing.T) {
 	pbt.Main(t, pbt.Prop[Case]{
 		ID: "C04", Name: "derivation",
 		Rule: "rapid-generated derivation programs: a root (any prefix, separator incl. empty and multi-byte, tags; no sanitizer with arbitrary byte strings, or generated SanitizeOptions) followed by 0..6 SubScope/Tagged steps drawing tag keys from a small pool so that keys get re-tagged, the caller's maps mutated (add/overwrite/delete) after each call, then one metric of every kind recorded over 1..3 report passes; observed via plain reporter, cached Allocate*/handles, or test-scope Snapshot. Oracle: reference scope model (name fold, right-biased overlay, reference sanitizer); library never mutates caller maps; later caller-side mutation changes nothing; tags equal on every pass. Cases that fall into C05's recorded delimiter ambiguity (different identities with byte-equal canonical key) are counted as excluded only while that finding is listed open. Non-trivial: depth>=2 with a re-tagged key, or a caller map mutated after use, or an empty/non-ASCII/invalid-UTF-8 name component. Distinct: FNV-64 of the case JSON.",
-		Gen:  gen, Run: run,
+		Gen:  gen, Run: run, HangAfter: 20 * time.Second,
 	})
 }
 
@@ -494,6 +494,6 @@ func TestSiblings(t *testing.T) {
 	pbt.Main(t, pbt.Prop[SibCase]{
 		ID: "C04", Name: "siblings",
 		Rule: "rapid-generated sets of 2..8 sibling Tagged derivations from one parent (root or a subscope) of a root with an alphanumeric+'_' sanitizer, shard count 1/2/16, plain/cached: tag values of 1..3 pieces from {multi-byte runes, their trailing bytes as invalid UTF-8, '_', '1', 'a', '.'}, so that raw keys, sanitized keys and their byte-length differences overlap between siblings; each sibling increments its counter by a distinct power of two and, after a pass, the delivered total per (name, sanitized tags) must be exactly the sum over the siblings that the reference sanitizer maps to that identity. Non-trivial: the sanitizer changed some input and >=2 identities exist.",
-		Gen:  genSib, Run: runSib,
+		Gen:  genSib, Run: runSib, HangAfter: 20 * time.Second,
 	})
 }
